@@ -2,6 +2,7 @@ package props
 
 import (
 	"bytes"
+	"context"
 	"encoding/json"
 	"fmt"
 	"os"
@@ -11,6 +12,7 @@ import (
 	"strings"
 	"sync"
 	"sync/atomic"
+	"time"
 
 	"verif/cli"
 	"verif/ev"
@@ -483,9 +485,15 @@ func runC12(e *Env) {
 		errs := make([]string, len(trees))
 		mc.ParFor(len(trees), func(i int) {
 			t := trees[i]
-			cmd := exec.Command(sbin, fmt.Sprint(t.bound), "20000000", t.text)
+			ctx, cancel := context.WithTimeout(context.Background(), 20*time.Minute)
+			cmd := exec.CommandContext(ctx, sbin, fmt.Sprint(t.bound), "20000000", t.text)
 			cmd.Env = append(os.Environ(), "GOMAXPROCS=2")
 			out, err := cmd.Output()
+			cancel()
+			if ctx.Err() != nil {
+				errs[i] = "explorer stopped after 20 minutes (no verdict for this tree)"
+				return
+			}
 			if err != nil {
 				errs[i] = fmt.Sprintf("%v: %s", err, trunc(string(out), 200))
 				return
@@ -498,6 +506,11 @@ func runC12(e *Env) {
 		exh := true
 		var notes []string
 		for i, t := range trees {
+			if strings.HasPrefix(errs[i], "explorer stopped") {
+				exh = false
+				e.R.NotExhaustive(errs[i])
+				continue
+			}
 			if errs[i] != "" {
 				e.R.Fail(ev.Fail{Class: "C12/schedule/explorer-crash", Msg: fmt.Sprintf("exploring %q: %s", trunc(t.text, 60), errs[i]), Kind: "schedule", Case: c12SchedCase{Text: t.text, Bound: t.bound}})
 				continue
